@@ -46,7 +46,16 @@ CODE_KINDS = [
 ]
 
 
-def classify(diags, linemap):
+def _enclosing_mode(text_lines, ln):
+    """'proof' | 'spec' | 'exec' for the function that encloses unit line ln"""
+    for k in range(min(ln, len(text_lines)) - 1, -1, -1):
+        m = re.match(r"\s*(?:pub(?:\([a-z]+\))?\s+)?(?:open\s+|closed\s+|uninterp\s+)?(proof|spec)?\s*fn\s+\w+", text_lines[k])
+        if m:
+            return m.group(1) or "exec"
+    return "exec"
+
+
+def classify(diags, linemap, text_lines=()):
     """-> (violations, proof_failures, tool_errors)"""
     viol, prooff, tool = [], [], []
     for d in diags:
@@ -75,7 +84,11 @@ def classify(diags, linemap):
         elif kind is None:
             tool.append(rec)
         elif kind in ("postcondition", "invariant"):
-            viol.append(rec)
+            # a lemma's own postcondition / a proof-mode loop is proof text, not code
+            if text_lines and origins and _enclosing_mode(text_lines, origins[0][0]) != "exec":
+                prooff.append(rec)
+            else:
+                viol.append(rec)
         elif kind in ("precondition", "overflow", "div0", "termination"):
             if any(o[0] == "code" for _, o, _ in origins):
                 viol.append(rec)
@@ -115,7 +128,7 @@ def run_unit(unit, repo="/repo", timeout=300):
         r["functions"] = [{"function": f["function"], "mode": f.get("mode:"), "ms": f["time"], "success": f["success"]} for f in fb]
     except Exception:
         r["functions"] = []
-    viol, prooff, tool = classify(diags, linemap)
+    viol, prooff, tool = classify(diags, linemap, text.split("\n"))
     if vr.get("success"):
         # vacuity guard: the same unit with `false` as an extra postcondition must fail
         vtext = re.sub(r"(?m)^(\s*)// VACUITY-PROBE\s*$", r"\1false,", text)
